@@ -68,8 +68,8 @@ def jug_cmd(sub, root, extra=()):
     return [sys.executable, '-c', code, sub, os.path.join(root, 'jf.py'), '--jugdir', os.path.join(root, 'jd'), '--will-cite'] + list(extra)
 
 
-def start_worker(root, nr_wait=4, cycle=1, verbose=False):
-    extra = ['--nr-wait-cycles', str(nr_wait), '--wait-cycle-time', str(cycle)]
+def start_worker(root, nr_wait=4, cycle=1, verbose=False, opts=()):
+    extra = ['--nr-wait-cycles', str(nr_wait), '--wait-cycle-time', str(cycle)] + list(opts)
     if verbose:
         extra += ['--verbose', 'info']
     errf = open(os.path.join(root, 'err.%d.%d' % (os.getpid(), int(time.time() * 1e6) % 10 ** 9)), 'w+')
@@ -167,14 +167,15 @@ def log_checks(log, edges, out, stored_before=None, t_recovery=None, victim_pid=
 def one_run(rng, mode, params=None):
     """mode: 'term' | 'int' | 'kill'.  -> (replay params, findings)"""
     params = dict(params or {})
-    if 'shape' not in params:
-        params['shape'] = rng.choice(sorted(SHAPES))
-        params['dur'] = rng.choice([0.3, 0.5])
-        params['nworkers'] = rng.choice([1, 2, 2])
-        params['victim'] = rng.randrange(params['nworkers'])
-        params['when'] = rng.choice(['in-function', 'in-function', 'in-wait-loop']) if mode != 'kill' else rng.choice(['in-function', 'random-time', 'random-time'])
-        params['delay'] = round(rng.uniform(0.0, 1.5), 3)
-        params['nth'] = rng.randrange(3) if params['nworkers'] == 1 else 0
+    defaults = [('shape', lambda: rng.choice(sorted(SHAPES))), ('dur', lambda: rng.choice([0.3, 0.5])), ('nworkers', lambda: rng.choice([1, 2, 2])),
+                ('victim', lambda: rng.randrange(params['nworkers'])),
+                ('when', lambda: rng.choice(['in-function', 'in-function', 'in-wait-loop']) if mode != 'kill' else rng.choice(['in-function', 'random-time', 'random-time'])),
+                ('delay', lambda: round(rng.uniform(0.0, 1.5), 3)),
+                ('nth', lambda: rng.randrange(3) if params['nworkers'] == 1 else 0),
+                ('opts', lambda: [o for o in ('--no-check-environment', '--keep-going', '--keep-failed', '--aggressive-unload') if rng.random() < 0.35])]
+    for k, f in defaults:
+        v = f()                 # always drawn, so that presets do not shift the random stream
+        params.setdefault(k, v)
     edges = SHAPES[params['shape']]
     n = len(edges)
     if params['when'] == 'in-wait-loop':
@@ -195,12 +196,12 @@ def one_run(rng, mode, params=None):
         try:
             delivered = False
             if params['when'] == 'in-wait-loop':
-                p0 = start_worker(root)
+                p0 = start_worker(root, opts=params['opts'])
                 procs.append(p0)
                 t_end = time.time() + 30
                 while time.time() < t_end and not open_tasks(read_log(root), p0.pid):
                     time.sleep(0.02)
-                victim = start_worker(root, nr_wait=6, cycle=2, verbose=True)
+                victim = start_worker(root, nr_wait=6, cycle=2, verbose=True, opts=params['opts'])
                 procs.append(victim)
                 # the victim reports 'waiting 2 secs for an open task' right before it sleeps for 2 s
                 t_end = time.time() + 30
@@ -215,7 +216,7 @@ def one_run(rng, mode, params=None):
                     delivered = True
             else:
                 for k in range(params['nworkers']):
-                    procs.append(start_worker(root))
+                    procs.append(start_worker(root, opts=params['opts']))
                 victim = procs[params['victim']]
                 if params['when'] == 'in-function':
                     # wait until the victim is inside its nth task function (it sleeps there for `dur` seconds), then signal at once
@@ -249,6 +250,10 @@ def one_run(rng, mode, params=None):
                 if v is not None and v != ref[i]:
                     found.append({'what': 'process-run: a stored result is wrong after the signal', 'task': i})
             vt = open_tasks(log1, victim.pid)
+            if mode in ('term', 'int') and delivered:
+                later = [i for k, pid, i, ts in log1 if k == 'S' and pid == victim.pid and ts > params['t_sig']]
+                if later:
+                    found.append({'what': 'process-run: a signalled worker goes on to start another task', 'tasks': later})
             if mode in ('term', 'int'):
                 if delivered and victim.returncode == 0 and vt:
                     found.append({'what': 'process-run: a signalled worker exits with status 0 in the middle of a task'})
@@ -301,21 +306,36 @@ def one_run(rng, mode, params=None):
     return params, found
 
 
-def _runs(ck, n, modes):
+def _runs(ck, n, modes, presets=()):
     for i in range(n):
         mode = modes[i % len(modes)]
-        params, found = one_run(ck.rng, mode)
+        if i < len(presets):
+            mode, preset = presets[i]
+        else:
+            preset = None
+        params, found = one_run(ck.rng, mode, preset)
         ck.count('process-run:%s:%s:%s' % (mode, params['when'], 'delivered' if params.get('delivered') else 'too-late'))
+        for o in params['opts']:
+            ck.count('process-run:%s:option %s' % (mode, o))
         if params.get('temp_files_after_signal'):
             ck.count('process-run:%s:temp-files-left' % mode)
         if params.get('locks_after_signal'):
             ck.count('process-run:%s:locks-left-before-cleanup' % mode)
         for f in found:
-            ck.violation({'kind': 'process-run', 'what': f['what'], 'finding': f, 'mode': mode, 'params': params})
+            ck.violation({'kind': 'process-run', 'what': f['what'], 'finding': f, 'mode': mode, 'params': params}, found_input=True)
+
+
+# a small covering set that every tier runs first: both signals x exit checks on/off x the failure-handling flags x both instants
+SIGNAL_PRESETS = (('term', {'when': 'in-function', 'nworkers': 1, 'opts': ['--no-check-environment']}),
+                  ('int', {'when': 'in-function', 'nworkers': 1, 'opts': ['--keep-going', '--keep-failed']}),
+                  ('term', {'when': 'in-wait-loop', 'opts': ['--keep-going']}),
+                  ('int', {'when': 'in-function', 'nworkers': 2, 'opts': ['--no-check-environment', '--aggressive-unload']}),
+                  ('term', {'when': 'in-function', 'nworkers': 2, 'opts': ['--keep-failed', '--aggressive-unload']}),
+                  ('int', {'when': 'in-wait-loop', 'opts': ['--no-check-environment', '--keep-failed']}))
 
 
 def signal_runs(ck, n):
-    _runs(ck, n, ['term', 'int'])
+    _runs(ck, n, ['term', 'int'], SIGNAL_PRESETS)
 
 
 def kill_runs(ck, n):
@@ -324,7 +344,7 @@ def kill_runs(ck, n):
 
 def replay(obj):
     import random
-    params = {k: v for k, v in obj['params'].items() if k in ('shape', 'dur', 'nworkers', 'victim', 'when', 'delay', 'nth')}
+    params = {k: v for k, v in obj['params'].items() if k in ('shape', 'dur', 'nworkers', 'victim', 'when', 'delay', 'nth', 'opts')}
     p, found = one_run(random.Random(0), obj['mode'], params)
     print('log:', p.get('log'))
     print('expected (recorded):', obj.get('what'))
